@@ -111,7 +111,7 @@ def check(ctx, case):
 
 
 def part_auth(ctx):
-    n = 900 if ctx.tier == "quick" else 5000
+    n = 900 if ctx.tier == "quick" else 20000
     hyp_run(ctx, CASE, lambda c: check(ctx, c), n, name="auth")
 
 
